@@ -2,8 +2,12 @@ package vsched
 
 import (
 	"fmt"
+	"os"
 	"runtime"
+	"sort"
+	"strconv"
 	"strings"
+	gosync "sync"
 	"testing"
 	"testing/synctest"
 
@@ -49,6 +53,23 @@ func Exec(t *testing.T, prefix []verifx.Point, opt Options, main func()) (res *R
 // with nothing enabled and no timer before the horizon) and leaked threads are
 // violations unless the body's own verdict is already bad.
 func E1(t *testing.T, name string, budget int, opt Options, body func() Verdict) *verifx.Scenario {
+	if n, _ := strconv.Atoi(os.Getenv("VERIF_FREERUN")); n > 0 {
+		// the race-detector pass: n free-running executions of the same body, verdicts not evaluated
+		return &verifx.Scenario{Name: name, Budget: 0, Exec: func(prefix []verifx.Point) *verifx.Outcome {
+			ends := map[string]int{}
+			for i := 0; i < n; i++ {
+				ends[RunFree(t, int64(i), func() { body() })]++
+			}
+			var log []string
+			for k, c := range ends {
+				if k != "" {
+					log = append(log, fmt.Sprintf("%d free runs ended with: %s", c, k))
+				}
+			}
+			sort.Strings(log)
+			return &verifx.Outcome{Steps: n, Obs: "free-running", Log: log}
+		}}
+	}
 	return &verifx.Scenario{Name: name, Budget: budget, Exec: func(prefix []verifx.Point) *verifx.Outcome {
 		var v Verdict
 		finished := false
@@ -109,8 +130,12 @@ type Gate struct {
 	ctl     *Controller
 }
 
+var gateMu gosync.Mutex // Gate flags are read by controllers running in other goroutines
+
 func (g *Gate) announce() {
+	gateMu.Lock()
 	g.Waiting = true
+	gateMu.Unlock()
 	if g.ctl != nil {
 		select {
 		case g.ctl.wake <- struct{}{}:
@@ -141,14 +166,27 @@ func (g *Gate) WaitOr(done <-chan struct{}) bool {
 }
 
 func (g *Gate) Open() {
-	if !g.opened {
-		g.opened = true
+	gateMu.Lock()
+	was := g.opened
+	g.opened = true
+	gateMu.Unlock()
+	if !was {
 		Point()
 		close(g.ch)
 	}
 }
 
-func (g *Gate) Opened() bool { return g.opened }
+func (g *Gate) Opened() bool {
+	gateMu.Lock()
+	defer gateMu.Unlock()
+	return g.opened
+}
+
+func (g *Gate) waitingClosed() bool {
+	gateMu.Lock()
+	defer gateMu.Unlock()
+	return g.Waiting && !g.opened
+}
 
 // Controller opens gates on behalf of a harness: whenever a handler parks on a
 // gate the controller waits until nothing else can run (idle priority) and then
@@ -186,7 +224,7 @@ func (c *Controller) loop() {
 		WaitIdle()
 		var waiting []*Gate
 		for _, g := range c.gates {
-			if g.Waiting && !g.opened {
+			if g.waitingClosed() {
 				waiting = append(waiting, g)
 			}
 		}
